@@ -5,6 +5,7 @@ package watch
 import (
 	"context"
 	"errors"
+	"time"
 
 	"github.com/fsnotify/fsnotify"
 
@@ -171,4 +172,135 @@ func VerifC20Events(nEvents int) {
 			rt.Cover("C20.unsubscribed-event")
 		}
 	}
+}
+
+// ---- the polling loop of Watcher.Run, Close, and several events in a row (thread mode) ----
+
+var c20Added []string
+var c20Started []c20Exec
+
+func c20FswAdd(w *fsnotify.Watcher, name string) error {
+	c20Added = append(c20Added, name)
+	return nil
+}
+
+// the real fsnotify closes both channels when the watcher is closed
+func c20FswClose(w *fsnotify.Watcher) error {
+	close(w.Events)
+	close(w.Errors)
+	return nil
+}
+
+func c20NewFsWatcherCh() (*fsnotify.Watcher, error) {
+	return &fsnotify.Watcher{Events: make(chan fsnotify.Event, 4), Errors: make(chan error, 1)}, nil
+}
+
+// a command takes time: it starts, something else may happen, and it is interrupted when its
+// context was cancelled meanwhile (a later event cancels what is still running)
+func c20ExecuteSlow(e *executor.DefaultExecutor, ctx context.Context, job *executor.Job) ([]byte, error) {
+	if rt.CtxCancelled(ctx) {
+		return nil, ctx.Err()
+	}
+	x := c20Exec{Cmd: job.Command}
+	x.EventName, _ = job.Env.Get("EventName").(string)
+	x.EventPath, _ = job.Env.Get("EventPath").(string)
+	c20Started = append(c20Started, x)
+	rt.Yield()
+	if rt.CtxCancelled(ctx) {
+		return nil, ctx.Err()
+	}
+	c20Execs = append(c20Execs, x)
+	return nil, nil
+}
+
+func c20OpString(op fsnotify.Op) string { return "op" }
+
+var c20EvPaths = []string{"f0", "f1", "f2", "f3"}
+
+// VerifC20Loop: the real Watcher.Run (registration, first run of the task, polling loop, handler
+// goroutines) with nEvents events of symbolic type delivered through the fsnotify channel, then Close.
+func VerifC20Loop(nEvents, preempt int) {
+	rt.ThreadMode(preempt)
+	rt.Unwind(400)
+	rt.Redirect("github.com/fsnotify/fsnotify.NewWatcher", c20NewFsWatcherCh)
+	rt.Redirect("(*github.com/fsnotify/fsnotify.Watcher).Add", c20FswAdd)
+	rt.Redirect("(*github.com/fsnotify/fsnotify.Watcher).Close", c20FswClose)
+	rt.Redirect("github.com/bmatcuk/doublestar.Glob", c20Glob)
+	rt.Redirect("(github.com/fsnotify/fsnotify.Op).String", c20OpString) // only feeds a debug message
+	rt.Redirect("(*github.com/taskctl/taskctl/pkg/executor.DefaultExecutor).Execute", c20ExecuteSlow)
+	rt.Redirect("github.com/taskctl/taskctl/pkg/executor.NewDefaultExecutor", c20NewExecutor)
+	rt.Redirect("github.com/taskctl/taskctl/pkg/utils.RenderString", c20Render)
+	c20Inc = [][]bool{{true, true, false}}
+	c20Added, c20Started, c20Execs = nil, nil, nil
+	var events []string
+	sub := make([]bool, 5)
+	any := false
+	for i, n := range c20Names {
+		sub[i] = rt.Bool("subscribed." + n)
+		if sub[i] {
+			events = append(events, n)
+			any = true
+		}
+	}
+	tk := task.FromCommands("watched-cmd")
+	tk.Name = "wt"
+	w, err := NewWatcher("w", events, []string{"inc0"}, nil, tk)
+	rt.Assert(err == nil, "C20.watcher-built")
+	r, _ := runner.NewTaskRunner()
+	returned := false
+	rt.Spawn("watcher-run", func() {
+		rerr := w.Run(r)
+		rt.Assert(rerr == nil, "C20.loop.Run-returns-no-error")
+		returned = true
+	})
+	tys := make([]int, nEvents)
+	for n := 0; n < nEvents; n++ {
+		tys[n] = rt.Choice("event."+c20D[n]+".type", 5)
+		w.fsw.Events <- fsnotify.Event{Name: c20EvPaths[n], Op: c20Ops[tys[n]]}
+	}
+	for len(w.fsw.Events) > 0 {
+		time.Sleep(time.Second)
+	}
+	time.Sleep(time.Second) // the last handler gets going
+	w.Close()
+	rt.WaitThreads()
+	rt.Assert(returned, "C20.loop.Run-returns-after-Close")
+	rt.Assert(rt.And(len(c20Added) >= 2, c20Added[0] == "p0", c20Added[1] == "p1"), "C20.loop.every-selected-path-is-registered")
+	lastSub := -1
+	for n := 0; n < nEvents; n++ {
+		if rt.Or(rt.Not(any), sub[tys[n]]) {
+			lastSub = n
+		}
+	}
+	for n := 0; n < nEvents; n++ {
+		want := rt.Or(rt.Not(any), sub[tys[n]])
+		started, finished := false, false
+		for _, x := range c20Started {
+			if x.Cmd == "watched-cmd" && x.EventPath == c20EvPaths[n] {
+				started = true
+				rt.Assert(x.EventName == c20Names[tys[n]], "C20.EventName-and-EventPath-describe-the-event")
+			}
+		}
+		for _, x := range c20Execs {
+			if x.Cmd == "watched-cmd" && x.EventPath == c20EvPaths[n] {
+				finished = true
+			}
+		}
+		if want {
+			if preempt == 0 {
+				rt.Assert(started, "C20.loop.every-subscribed-event-runs-the-task (also the later ones)")
+			} else {
+				// under preemption a later event's handler may cancel this event's run before its first
+				// command: superseded, which is what cancelling on a new event means
+				rt.Assert(rt.Or(started, n < lastSub), "C20.loop.every-subscribed-event-runs-the-task-or-is-superseded-by-a-later-one")
+			}
+			if n == lastSub {
+				rt.Assert(finished, "C20.loop.the-last-subscribed-event's-run-completes")
+			}
+			rt.Cover("C20.loop.subscribed-event")
+		} else {
+			rt.Assert(!started, "C20.unsubscribed-event-runs-nothing")
+		}
+	}
+	rt.Cover("C20.loop-checked")
 }
